@@ -27,3 +27,17 @@ fn token_names_every_bundle_member()
     assert!(empty.reactors.len() == 0, "C07/C15: an empty bundle yields an empty token");
     kani::cover!(true, "end of harness reached");
 }
+
+/// C06 / C15, minimal form (two members): a bundle that repeats one trigger yields a token with one entry PER MEMBER.
+#[kani::proof]
+#[kani::stub(core::any::TypeId::of, crate::vh::stub_typeid_of)]
+#[kani::stub(<core::any::TypeId as crate::vh::PEq>::eq, crate::vh::stub_typeid_eq)]
+#[kani::unwind(4)]
+fn token_keeps_duplicate_member()
+{
+    let sys = SystemCommand(ent(3));
+    let token = RevokeToken::new_from(sys, (broadcast::<Ta>(), broadcast::<Ta>()));
+    assert!(token.reactors.len() == 2, "C06/C15: a repeated trigger is registered twice, so the token must name it twice");
+    assert!(matches!(token.reactors[0], ReactorType::Broadcast(_)) && matches!(token.reactors[1], ReactorType::Broadcast(_)));
+    kani::cover!(true, "end of harness reached");
+}
